@@ -144,19 +144,37 @@ def cases(draw):
         if none_ok:
             opts.append(st.none())
         return draw(st.one_of(opts))
+    rejected = [i for i in range(len(DOMAIN)) if i not in accepted]
+    # puts alternate between accepted and rejected values (construction, not rejection sampling)
+    if accepted and rejected:
+        put_idx = st.one_of(st.sampled_from(accepted), st.sampled_from(accepted), st.sampled_from(rejected), idx_any)
+    else:
+        put_idx = idx_any
     if block == 'Input':
         case['initdef'] = mostly_accepted(none_ok=False)
         case['restore'] = draw(st.one_of(st.none(), st.none(), idx_any))
         if draw(st.integers(0, 9)) == 0:
             case['initdef'] = None
-        case['ops'] = [['put', i] for i in draw(st.lists(idx_any, max_size=6))]
+        case['ops'] = [['put', i] for i in draw(st.lists(put_idx, min_size=draw(st.sampled_from([0, 2, 3])), max_size=6))]
     else:
         case['initdef'] = mostly_accepted(none_ok=True)
         case['expired'] = mostly_accepted(none_ok=False)
         case['restore'] = None
         case['ops'] = draw(st.lists(st.one_of(
-            idx_any.map(lambda i: ['put', i]), idx_any.map(lambda i: ['put', i]),
-            st.sampled_from([3, 11]).map(lambda d: ['wait', d])), max_size=6))
+            put_idx.map(lambda i: ['put', i]), put_idx.map(lambda i: ['put', i]),
+            st.sampled_from([3, 11]).map(lambda d: ['wait', d])), min_size=draw(st.sampled_from([0, 2, 3])), max_size=6))
+    # feed results back: a put of the value that the previous accepted put produced (a schema need
+    # not be idempotent, an equal value may be of another type)
+    last = None
+    for op in case['ops']:
+        if op[0] != 'put':
+            continue
+        if last is not None and draw(st.integers(0, 3)) == 0:
+            op[1] = last
+        acc = model.accept(op[1])
+        if acc is not None:
+            k = index_of(acc[1])
+            last = k if k is not None else last
     return case
 
 
